@@ -606,7 +606,7 @@ class TransferManager(BaseManager):
 
             if should_change:
                 if upload.state.VALUE == TransferState.ABORTED:
-                    tasks.append(upload.state.queue())
+                    tasks.append(self._requeue_if_listed(upload))
                 else:
                     tasks.append(upload.state.abort(reason=abort_reason))
 
@@ -614,6 +614,13 @@ class TransferManager(BaseManager):
                 upload.abort_reason = abort_reason
 
         await asyncio.gather(*tasks, return_exceptions=True)
+
+    async def _requeue_if_listed(self, upload: Transfer):
+        # The transitions collected by manage_shares_changed only run in a
+        # later iteration of the loop: the upload could have been removed in
+        # the meantime and nothing may change for a removed transfer
+        if any(transfer is upload for transfer in self._transfers):
+            await upload.state.queue()
 
     def _get_queued_transfers(self) -> tuple[list[Transfer], list[Transfer]]:
         """Returns all transfers eligable for being initialized
